@@ -21,4 +21,16 @@ CONF = {
     },
 }
 
+CONF["C02"] = {
+    "pkg": "c02",
+    "level": "exploration",
+    "technique": "rapid-generated well-formed streams + deterministic per-field sweep, decoded and compared field by field with an independent reference interpreter; metamorphic removal of unknown items",
+    "level_text": "Generated search against a reference interpreter of the FIT wire format that shares no code with the decoder: every field of every decoded message is compared with what the wire bytes denote, absent fields with the FIT invalid values. A deterministic sweep covers every profile field of the 45 observable messages with every compatible definition type, both byte orders and boundary values; random multi-record streams add interactions (field order, unknown/developer fields, redefinitions, compressed headers). Not a proof: multi-field interactions are sampled.",
+    "level_note": "Trusted: harness/fitmodel (base type table from the FIT protocol document, interpreter), the hook's table export (which struct field a wire field lands in), the reading of 'compatible' = same type or an integer type of the same signedness that is not wider. Narrow fields carrying their own invalid pattern, latitude exactly +90 degrees and reference-less time situations are not decided (counted as undecided). Accumulated component destinations are compared by C18.",
+    "quick": {"checks": 4000, "timeout": 300, "shrinktime": "10s"},
+    "thorough": {"checks": 60000, "timeout": 1500, "shards": 8, "shrinktime": "30s"},
+    "rule": "sweep: one single-field stream per (profile field of an observable message, compatible definition type incl. narrower same-signedness integers / array lengths 1, len-1, len, len+1, max / string sizes, byte order, boundary value) - distinct by construction, all non-trivial. streams: rapid GenStream (file type, 1..24 records over hosted, unhosted and unknown messages, compatible definitions, field permutations, unknown and developer fields, redefinitions, compressed headers); non-trivial = at least one big-endian multi-byte, narrower, negative signed, array, string, coordinate or time field; distinct by fingerprint of the stream. neighbours: same generator, unknown messages/fields/developer fields removed, digests of the remaining messages must be equal; non-trivial = something was removed.",
+    "assumptions": ["fitmodel base type table and interpreter are correct readings of the FIT protocol", "hook table export is faithful (it copies the table entries)"],
+}
+
 NOT_APPLICABLE = {}
